@@ -4,6 +4,7 @@ independently of the crate's writer; the impl reads them; unsupported library-le
 must give an error. Foreign-written files of /repo are cross-checked against the reference decoder."""
 import json, os
 from vlib import *
+from props.kernelcommon import kernel_tie_leg
 from props.gdscommon import *
 
 HARNESS_BINS = ["c01"]
@@ -160,6 +161,7 @@ def foreign(chk):
 
 def run(chk, replay=None):
     chk.proof_leg(MODEL_TARGETS, "Properties/C03.v", PROOF_FILES, "Properties.C03")
+    kernel_tie_leg(chk, "gds_read")       # GdsReader::read_record_header / read_record_content / read_record generated from gds21/src/read.rs = read_header / read_content / read_record of the reader model (Properties/KernelsGdsCodec.v)
     chk.assumptions += [
         "GdsSpec.v is a faithful transcription of the GDSII stream format manual; the reference encoder pads odd-length strings with exactly one NUL and never pads even-length strings (DESIGN.md section 4)",
         "the reference encoding of a double is gds_spec_encode (C15)",
